@@ -82,7 +82,8 @@ PROPS = {
                   'fact_balance_sites', 'fact_refund_mints', 'fact_refund_burnt_from_collector'],
         engines=[dict(name='block', test='TestEngineBlock', quick=500, thorough=6000, thorough_seeds=3),
                  dict(name='statedb', test='TestEngineStatedb', quick=3000, thorough=60000, thorough_seeds=2),
-                 dict(name='geth', test='TestEngineGeth', quick=800, thorough=6000, thorough_seeds=2, no_model=True)],
+                 dict(name='geth', test='TestEngineGeth', quick=800, thorough=6000, thorough_seeds=2, no_model=True),
+                 dict(name='erc20', test='TestEngineErc20', quick=1000, thorough=20000, thorough_seeds=2)],   # coins moved by the ERC-20 precompile (transfer / transferFrom to bank-blocked recipients: the EVM module account stays empty)
         rule=BLOCK_RULE, assumptions=BLOCK_ASSUME + ['bank keeps supply = sum of balances (x/bank invariant, trusted); per-tx supply and balance deltas are reconstructed from the bank events of each ExecTxResult'],
     ),
     'C05': dict(
